@@ -121,6 +121,48 @@ DEFINES = {'z': 'prod'}                  # define_variable
 SCALES_Q = [('x', 0.5), ('c', 2)]
 SCALES_T = [('x', 0.5), ('c', 2), ('x', -4.0)]
 
+# -- magnitudes of non-zero values ("non-zero" in the statement has no threshold) and undefined values
+MAGS = {'2^-20': 2.0 ** -20, '2^-27': 2.0 ** -27, '2^-34': 2.0 ** -34, '2^-40': 2.0 ** -40, '2^-100': 2.0 ** -100,
+        '2^-1000': 2.0 ** -1000, '1e-7': 1e-7, '1e-9': 1e-9, '1e-10': 1e-10, '1e-15': 1e-15, '1e-300': 1e-300,
+        '2^40': 2.0 ** 40, '2^100': 2.0 ** 100}
+MAGS_Q = ['2^-20', '2^-27', '2^-40', '2^-1000', '1e-7', '1e-9', '1e-15', '2^40']
+# wide alphabet (second breadth-first search): conditions with tiny / arbitrary non-zero values, tiny scale factors,
+# a column of tiny values, a formula that is undefined (NaN) on some rows
+FORMULAS['tiny'] = ('*', V('x'), N(2.0 ** -34))
+FORMULAS['undef'] = ('log', ('-', N(1), ('*', N(2), ('==', V('c'), N(1)))))      # 0 where c != 1, NaN where c == 1
+WIDE_CONDS = ['c_eq_1', 'col:x', 'xm:2^-40', 'cm:2^-27', 'k:2^-40', 'col:t']
+WIDE_ADDS = {'t': 'tiny'}
+WIDE_DEFINES = {'w': 'undef'}
+WIDE_SCALES_Q = [('x', 2.0 ** -40)]
+WIDE_SCALES_T = [('x', 2.0 ** -40), ('x', 1e-9), ('c', 2.0 ** 40)]
+
+
+def term_of(name):
+    """Formula / condition by name; parametrised families are resolved from the name itself:
+    xm:<m> = x*m, cm:<m> = (c-1)*m, k:<m> = the raw number m, col:<name> = the column itself,
+    nan:<mask>:<base> = base + log(1 - 2*[row tag in mask]) = base where the row is not in the mask, NaN where it is."""
+    if name in FORMULAS:
+        return FORMULAS[name]
+    p = name.split(':')
+    if p[0] == 'xm':
+        return ('*', V('x'), N(MAGS[p[1]]))
+    if p[0] == 'cm':
+        return ('*', ('-', V('c'), N(1)), N(MAGS[p[1]]))
+    if p[0] == 'k':
+        return N(MAGS[p[1]])
+    if p[0] == 'col':
+        return V(p[1])
+    if p[0] == 'nan':
+        mask = int(p[1])
+        ind = None
+        for i in range(5):
+            if mask >> i & 1:
+                e = ('==', V('r'), N(RID[i]))
+                ind = e if ind is None else ('+', ind, e)
+        und = ('log', ('-', N(1), ('*', N(2), ind)))
+        return und if p[2] == '0' else ('+', und, V(p[2]))
+    raise KeyError(name)
+
 
 def term_columns(t):
     if t[0] == 'v':
@@ -137,6 +179,11 @@ def ev(t, row):
         return float(row[t[1]])
     if k == 'n':
         return float(t[1])
+    if k == 'log':
+        a = ev(t[1], row)
+        if a != a or a < 0.0:
+            return float('nan')
+        return -math.inf if a == 0.0 else math.log(a)
     a, b = ev(t[1], row), ev(t[2], row)
     if k == '+':
         return a + b
@@ -177,9 +224,22 @@ class RefTable:
         self.excluded = 0
         self.conds = conds(spec['ids'])
 
+    @classmethod
+    def raw(cls, cols, rows):
+        """A reference table given directly (rows = [(tag, {column: value})]), for the entry points on raw frames."""
+        self = cls.__new__(cls)
+        self.cols, self.rows, self.panel, self.excluded, self.conds = list(cols), list(rows), None, 0, {}
+        return self
+
+    def cond_term(self, cond):
+        return self.conds[cond] if cond in self.conds else term_of(cond)
+
+    def has_undefined(self):
+        return any(v != v for _, row in self.rows for v in row.values())
+
     # -- operations
     def remove(self, cond):
-        t = self.conds[cond]
+        t = self.cond_term(cond)
         keep, gone = [], 0
         for rid, row in self.rows:
             if ev(t, row) != 0.0:
@@ -190,7 +250,7 @@ class RefTable:
         self.excluded = gone
 
     def add(self, name, formula):
-        t = FORMULAS[formula]
+        t = term_of(formula)
         for rid, row in self.rows:
             row[name] = ev(t, row)
         self.cols.append(name)
@@ -241,9 +301,9 @@ class RefTable:
         if k == 'remove':
             self.remove(op[1])
         elif k == 'add':
-            self.add(op[1], ADDS[op[1]])
+            self.add(op[1], formula_name(op))
         elif k == 'define':
-            self.add(op[1], DEFINES[op[1]])
+            self.add(op[1], formula_name(op))
         elif k == 'scale':
             self.scale(op[1], op[2])
         elif k == 'panel':
@@ -254,8 +314,38 @@ class RefTable:
             raise ValueError(op)
 
 
-def mutators(ref: RefTable, tier):
+def formula_name(op):
+    """['add'|'define', column] uses the fixed formula of that column; ['add'|'define', column, formula] names it."""
+    if len(op) > 2:
+        return op[2]
+    for d in (ADDS, DEFINES, WIDE_ADDS, WIDE_DEFINES):
+        if op[1] in d:
+            return d[op[1]]
+    raise KeyError(op)
+
+
+def wide_mutators(ref: RefTable, tier):
+    """The wide alphabet: value magnitudes and undefined values, composed with a few basic operations."""
+    ops = []
+    for c in WIDE_CONDS:
+        if term_columns(ref.cond_term(c)) <= set(ref.cols):
+            ops.append(['remove', c])
+    for name in WIDE_ADDS:
+        if name not in ref.cols:
+            ops.append(['add', name])
+    for name in WIDE_DEFINES:
+        if name not in ref.cols:
+            ops.append(['define', name])
+    for col, s in (WIDE_SCALES_T if tier == 'thorough' else WIDE_SCALES_Q):
+        ops.append(['scale', col, s])
+    ops.append(['panel', 'id'])
+    return ops
+
+
+def mutators(ref: RefTable, tier, wide=False):
     """Enabled mutating operations in the state described by the reference, simplest first."""
+    if wide:
+        return wide_mutators(ref, tier)
     ops = []
     cnames = ['c_eq_1', 'c_minus_1', 'id_mid', 'zero', 'y1_small']
     if tier == 'thorough':
@@ -377,6 +467,10 @@ def build(t):
         return Variable(t[1])
     if k == 'n':
         return t[1]
+    if k == 'log':
+        from biogeme.expressions import log
+
+        return log(build(t[1]))
     a, b = build(t[1]), build(t[2])
     if k == '+':
         return a + b
@@ -417,11 +511,11 @@ def apply_real(db, ref_before: RefTable, op):
     """Applies a mutating op to the real object; returns the library's return value."""
     k = op[0]
     if k == 'remove':
-        return db.remove(build(ref_before.conds[op[1]]))
+        return db.remove(build(ref_before.cond_term(op[1])))
     if k == 'add':
-        return db.add_column(build(FORMULAS[ADDS[op[1]]]), op[1])
+        return db.add_column(build(term_of(formula_name(op))), op[1])
     if k == 'define':
-        return db.define_variable(op[1], build(FORMULAS[DEFINES[op[1]]]))
+        return db.define_variable(op[1], build(term_of(formula_name(op))))
     if k == 'scale':
         return db.scale_column(op[1], op[2])
     if k == 'panel':
@@ -582,11 +676,20 @@ def replay_history(table, history, check=True):
 
 
 # --------------------------------------------------------------------------- observers
-def observers(ref: RefTable, tier):
-    """Observing operations enabled in the state, as JSON-able descriptors."""
+def observers(ref: RefTable, tier, wide=False):
+    """Observing operations enabled in the state, as JSON-able descriptors.  `wide`: the reduced list used in the
+    states of the wide alphabet and of the pattern sweeps (the complete list runs in the states of the main search)."""
     n = len(ref.rows)
     ops = []
     if n == 0:
+        return ops
+    if wide:
+        ops += [['sizes'], ['values', 'lin'], ['count'], ['extract'], ['split', 2, 'id'], ['sample', 1], ['sample', 2]]
+        if ref.panel is not None:
+            ops += [['sample_map', 2], ['flat', 'auto'], ['flat', 'given']]
+        ops += [['flat_tool', 'auto'], ['flat_tool', 'given']]
+        if ref.has_undefined():
+            ops.append(['flat_tool', 'given_undefined_equal'])
         return ops
     ops.append(['sizes'])
     for f in ('obs', 'lin'):
@@ -605,6 +708,8 @@ def observers(ref: RefTable, tier):
             ops.append(['sample_map', size])
         ops.append(['flat', 'auto'])
         ops.append(['flat', 'given'])
+    ops.append(['flat_tool', 'auto'])
+    ops.append(['flat_tool', 'given'])
     return ops
 
 
@@ -668,12 +773,13 @@ def check_split(result, k, group_col, ref: RefTable):
     return bad[:4]
 
 
-def flat_expect(ref: RefTable, identical):
+def flat_expect(ref: RefTable, identical, by=None):
     """What flattening implies: {individual: {column name: value}}; `identical` = list of identical columns."""
+    by = by or ref.panel
     groups = {}
     for rid, row in ref.rows:
-        groups.setdefault(row[ref.panel], []).append(row)
-    varying = [c for c in ref.cols if c != ref.panel and c not in identical]
+        groups.setdefault(row[by], []).append(row)
+    varying = [c for c in ref.cols if c != by and c not in identical]
     maxlen = max(len(g) for g in groups.values())
     out = {}
     for g, rows in groups.items():
@@ -686,17 +792,69 @@ def flat_expect(ref: RefTable, identical):
     return out
 
 
-def truly_identical(ref: RefTable):
+def truly_identical(ref: RefTable, by=None, undefined_equal=False):
+    """Columns holding one value per individual.  Two undefined values (NaN) are not equal, unless
+    `undefined_equal`: an individual whose observations are all undefined in a column."""
+    by = by or ref.panel
     groups = {}
     for rid, row in ref.rows:
-        groups.setdefault(row[ref.panel], []).append(row)
+        groups.setdefault(row[by], []).append(row)
+
+    def eq(a, b):
+        return a == b or (undefined_equal and a != a and b != b)
+
     out = []
     for c in ref.cols:
-        if c == ref.panel:
+        if c == by:
             continue
-        if all(all(r[c] == rows[0][c] for r in rows) for rows in groups.values()):
+        if all(all(eq(r[c], rows[0][c]) for r in rows) for rows in groups.values()):
             out.append(c)
     return out
+
+
+def flat_layouts(ref: RefTable, arg, by=None):
+    """The lists of identical columns a correct flat table may be built on.  With given identical columns: that
+    list.  Detected: the columns with one value per individual; a column that is undefined on *all* observations
+    of some individual (and constant elsewhere) may be taken either way -- the statement does not say whether two
+    undefined values are 'the same value' -- both layouts keep every value of the table."""
+    if arg is not None:
+        return [list(arg)]
+    strict = truly_identical(ref, by)
+    either = [c for c in truly_identical(ref, by, undefined_equal=True) if c not in strict]
+    out = []
+    for k in range(len(either) + 1):
+        for extra in itertools.combinations(either, k):
+            out.append([c for c in ref.cols if c in strict or c in extra])
+    return out
+
+
+def check_flat(flat, ref: RefTable, arg, by=None):
+    """Flat table against what the reference table implies -> (observation, [(clause, detail)])."""
+    fcols = [str(c) for c in flat.columns]
+    got = {}
+    for lab, row in zip(flat.index.tolist(), flat.itertuples(index=False, name=None)):
+        got[fnum(lab)] = {c: fnum(v) for c, v in zip(fcols, row)}
+    obs = (sorted((g, sorted(d.items())) for g, d in got.items()).__repr__(), len(got), len(fcols))
+    first = None
+    for ident in flat_layouts(ref, arg, by):
+        want = flat_expect(ref, ident, by)
+        problems = []
+        if len(flat.index) != len(want) or sorted(got) != sorted(want):
+            problems.append(('flat-individuals', f'flat table has rows {flat.index.tolist()}, individuals are {sorted(want)}'))
+        else:
+            for g in sorted(want):
+                if sorted(got[g]) != sorted(want[g]):
+                    problems.append(('flat-columns', f'individual {g}: columns {sorted(got[g])}, expected {sorted(want[g])}'))
+                    break
+                diffs = [(c, got[g][c], want[g][c]) for c in want[g] if not close(got[g][c], want[g][c])]
+                if diffs:
+                    problems.append(('flat-values', f'individual {g}: (column, flat value, table value) {diffs[:3]}'))
+                    break
+        if not problems:
+            return obs, []
+        if first is None or (problems[0][0] == 'flat-values' and first[0][0] != 'flat-values'):
+            first = problems      # report against the layout with the same columns if there is one
+    return obs, first
 
 
 def run_observer(R: Replayed, op, tier, rec: Rec, ctx, only_answer=None):
@@ -742,7 +900,7 @@ def run_observer(R: Replayed, op, tier, rec: Rec, ctx, only_answer=None):
                 problems.append(('formula-values', f'values_from_database({op[1]}) = {got}, per-row reference {want}', None))
     elif k == 'count':
         for c in ref.cols:
-            vals = sorted({row[c] for _, row in ref.rows}) + [12345.0]
+            vals = sorted({row[c] for _, row in ref.rows if row[c] == row[c]}) + [12345.0]   # defined values
             for v in vals:
                 if only_answer is not None and only_answer != [c, v]:
                     continue
@@ -755,6 +913,9 @@ def run_observer(R: Replayed, op, tier, rec: Rec, ctx, only_answer=None):
                 case([c, v], got, ('count', got), nontrivial=False)
                 if got != want:
                     problems.append(('count', f'count({c!r}, {v}) = {got}, the table holds {want}', [c, v]))
+    elif k == 'extract' and ref.has_undefined():
+        # a Database cannot be built on a table with undefined values (documented refusal): not in the alphabet
+        rec.count('skipped_extract_rows_on_a_table_with_undefined_values')
     elif k == 'extract':
         full = list(range(n))
         plan = [('list', lst) for lst in extract_lists(n, tier)]
@@ -876,25 +1037,22 @@ def run_observer(R: Replayed, op, tier, rec: Rec, ctx, only_answer=None):
         if err:
             problems.append(err)
             return problems
-        flat = r[0]
-        want = flat_expect(ref, ident)
-        got = {}
-        fcols = [str(c) for c in flat.columns]
-        for lab, row in zip(flat.index.tolist(), flat.itertuples(index=False, name=None)):
-            got[fnum(lab)] = {c: fnum(v) for c, v in zip(fcols, row)}
-        case(arg, sorted((g, sorted(d.items())) for g, d in got.items()).__repr__(), ('flat', len(got), len(fcols)),
-             nontrivial=False)
-        if len(flat.index) != len(want) or sorted(got) != sorted(want):
-            problems.append(('flat-individuals', f'flat table has rows {flat.index.tolist()}, individuals are {sorted(want)}', arg))
-        else:
-            for g in sorted(want):
-                if sorted(got[g]) != sorted(want[g]):
-                    problems.append(('flat-columns', f'individual {g}: columns {sorted(got[g])}, expected {sorted(want[g])}', arg))
-                    break
-                diffs = [(c, got[g][c], want[g][c]) for c in want[g] if not close(got[g][c], want[g][c])]
-                if diffs:
-                    problems.append(('flat-values', f'individual {g}: (column, flat value, table value) {diffs[:3]}', arg))
-                    break
+        obs, bad = check_flat(r[0], ref, arg)
+        case(arg, obs[0], ('flat', obs[1], obs[2]), nontrivial=False)
+        problems += [(c, d, arg) for c, d in bad]
+    elif k == 'flat_tool':
+        # the function behind generate_flat_panel_dataframe, called directly on the table (panel or not)
+        from biogeme.tools.database import flatten_database
+
+        arg = {'auto': None, 'given': truly_identical(ref, 'id'),
+               'given_undefined_equal': truly_identical(ref, 'id', undefined_equal=True)}[op[1]]
+        r, err = guard(lambda: flatten_database(db.data, 'id', identical_columns=None if arg is None else list(arg)), None)
+        if err:
+            problems.append(err)
+            return problems
+        obs, bad = check_flat(r[0], ref, arg, by='id')
+        case(op[1], obs[0], ('flat_tool', op[1], obs[1], obs[2]), nontrivial=False)
+        problems += [(c, d, None) for c, d in bad]
     else:
         raise ValueError(op)
     return problems
@@ -984,14 +1142,15 @@ def report(rec, problems, op, root, history, flags, observer, shrink=False):
 
 # --------------------------------------------------------------------------- expansion of one state
 def expand(root, history, rec: Rec, do_observers=True, do_mutators=True, shrink=False):
-    table, tier = root['table'], root['tier']
+    table, tier, wide = root['table'], root['tier'], bool(root.get('wide'))
+    label = table + ('/wide' if wide else '')
     R = replay_history(table, history)
     flags = flags_of(R.snap)
     canon0 = canon_of(R.snap)
-    ctx = dict(root=table, hist=json.dumps(history), depth=len(history))
+    ctx = dict(root=label, hist=json.dumps(history), depth=len(history))
     succ = []
     if do_observers:
-        for op in observers(R.ref, tier):
+        for op in observers(R.ref, tier, wide and not root.get('all_observers')):
             problems = run_observer(R, op, tier, rec, ctx)
             report(rec, problems, op, root, history, flags, True, shrink=shrink)
             # an observing operation must leave the state unchanged
@@ -1005,10 +1164,10 @@ def expand(root, history, rec: Rec, do_observers=True, do_mutators=True, shrink=
                        flags, True)
                 R = replay_history(table, history)
     if do_mutators:
-        for op in mutators(R.ref, tier):
+        for op in mutators(R.ref, tier, wide):
             R2 = replay_history(table, history, check=False)
             problems, s2 = step_and_compare(R2, op, rec)
-            rec.case((table, ctx['hist'], tuple(map(str, op))) if history or op[0] not in ('build_map',) else None,
+            rec.case((label, ctx['hist'], tuple(map(str, op))) if history or op[0] not in ('build_map',) else None,
                      (op, None if s2 is None else canon_of(s2)),
                      outcome=(op[0], None if s2 is None else (len(s2['rows']), len(s2['cols']), s2['panel'] is not None,
                                                               s2['excluded'])))
@@ -1016,7 +1175,8 @@ def expand(root, history, rec: Rec, do_observers=True, do_mutators=True, shrink=
             if problems:
                 report(rec, problems, op, root, history, flags, False)
                 continue
-            succ.append(dict(event=op, canon=canon_of(s2), expand=len(s2['rows']) > 0))
+            succ.append(dict(event=op, canon=canon_of(s2),
+                             expand=len(s2['rows']) > 0 and len(history) + 1 < root.get('depth', 99)))
     return succ
 
 
@@ -1059,7 +1219,11 @@ def bfs_depth(tier):
 
 
 def bfs_roots(tier, seed):
-    return [dict(table=t, tier=tier) for t in ('A', 'B', 'C')]
+    """The main search (base alphabet, complete observer list, depth bfs_depth) and a second search over the wide
+    alphabet (value magnitudes, undefined values) to its own depth bound, with the reduced observer list."""
+    roots = [dict(table=t, tier=tier) for t in ('A', 'B', 'C')]
+    roots += [dict(table=t, tier=tier, wide=True, depth=3 if tier == 'quick' else 4) for t in ('A', 'B', 'C')]
+    return roots
 
 
 def bfs_expand(task):
@@ -1088,13 +1252,62 @@ CHAINS = [
 ]
 
 
+# -- sweeps: one symbol of the wide alphabet varied over its whole menu, after a few earlier operations
+PRE = [[], [['remove', 'first']], [['panel', 'id']], [['add', 'y1'], ['remove', 'c_eq_1']]]
+
+
+def mag_forms(m):
+    """Ways in which condition values of magnitude m arise."""
+    return [[['remove', 'xm:' + m]],                                     # formula with a tiny factor
+            [['scale', 'x', MAGS[m]], ['remove', 'col:x']],              # change of units, then the column as condition
+            [['add', 't', 'xm:' + m], ['remove', 'col:t']],              # stored tiny column as condition
+            [['remove', 'cm:' + m]],                                     # negative / zero / positive
+            [['remove', 'k:' + m]]]                                      # raw non-zero number: every row goes
+
+
+NAN_BASES_Q, NAN_BASES_T = ['0', 'x'], ['0', 'id', 'x']
+
+
+def nan_histories(mask, base, tier):
+    d = ['define', 'w', f'nan:{mask}:{base}']
+    hs = [[d, ['panel', 'id']], [d, ['remove', 'c_eq_1'], ['panel', 'id']]]
+    if tier == 'thorough':
+        hs += [[['panel', 'id'], d], [d], [d, ['scale', 'x', 0.5], ['remove', 'last']]]
+    return hs
+
+
+# the flattening function on raw frames: every placement of two values and 'undefined' in one column
+TOOL_COLS = ['p', 'id', 'r', 'k']
+PVALS = [float(XS[0]), float(XS[1]), float('nan')]
+
+
+def tool_layouts():
+    a, b, c = sorted(set(IDS_SORTED))
+    return [dict(ids=list(IDS_SORTED), index=None),                       # contiguous, sorted
+            dict(ids=[a, b, a, c, b], index=[0, 1, 2, 0, 1]),             # interleaved individuals, duplicate labels
+            dict(ids=list(IDS_UNSORTED), index=[4, 2, 0, 3, 1]),          # contiguous, unsorted, permuted labels
+            dict(ids=[a, a, a, a, a], index=[3, 5, 6, 8, 9]),             # one individual, labels with gaps
+            dict(ids=[c, a, b, a + 100, b + 100], index=None)]            # every individual observed once
+
+
 def tasks(tier, seed):
     """Deep chains beyond the BFS depth bound: every prefix is compared with the reference, observers run
-    after the last step (quick) or after every step (thorough)."""
+    after the last step (quick) or after every step (thorough).  Sweeps: magnitudes of condition values,
+    placements of undefined values (through define_variable and on raw frames)."""
     t = []
     for table in ('A', 'B', 'C'):
         for ci in range(len(CHAINS)):
             t.append(dict(part='chain', root=dict(table=table, tier=tier), chain=ci))
+    for table in ('A', 'B', 'C'):
+        for pi in range(len(PRE)):
+            t.append(dict(part='mag', root=dict(table=table, tier=tier, wide=True), pre=pi))
+    for table in ('A', 'B', 'C'):
+        for base in (NAN_BASES_Q if tier == 'quick' else NAN_BASES_T):
+            for lo in (1, 9, 17, 25):
+                t.append(dict(part='nanpat', root=dict(table=table, tier=tier, wide=True), base=base, masks=[lo, lo + 8]))
+    for li in range(2 if tier == 'quick' else len(tool_layouts())):
+        for lead in range(3):
+            t.append(dict(part='tool', layout=li, lead=lead, tier=tier))
     return t
 
 
@@ -1102,10 +1315,127 @@ def run_task(task):
     rec = Rec()
     install_seams()
     try:
-        _run_chain(task, rec)
+        {'chain': _run_chain, 'mag': _run_mag, 'nanpat': _run_nanpat, 'tool': _run_tool}[task['part']](task, rec)
     finally:
         remove_seams()
     return rec.result()
+
+
+def _run_steps(root, history, rec, tag, observe_last=True, start=0):
+    """Every step of `history` from `start` on compared with the reference; observers after the last step."""
+    table = root['table']
+    for i in range(start, len(history)):
+        hist, op = history[:i], history[i]
+        try:
+            R = replay_history(table, hist)
+        except RuntimeError:
+            return False
+        if len(R.ref.rows) == 0:
+            return False
+        flags = flags_of(R.snap)
+        problems, s2 = step_and_compare(R, op, rec)
+        if not problems and op[0] in ('scale', 'add', 'define'):
+            problems = relative_cells(s2, R.ref, op[1])
+        rec.case((table, tag, json.dumps(history), i), (op, None if s2 is None else canon_of(s2)),
+                 outcome=(tag, op[0], None if s2 is None else (len(s2['rows']), len(s2['cols']), s2['panel'] is not None,
+                                                                s2['excluded'])))
+        rec.transition()
+        if s2 is not None:
+            rec.states.add(short_hash(repr((json.dumps(root, sort_keys=True), canon_of(s2))), 16))
+        if problems:
+            report(rec, problems, op, root, hist, flags, False)
+            return False
+    if observe_last:
+        ref = RefTable(table)
+        for op in history:
+            ref.apply(op)
+        if len(ref.rows) > 0:
+            expand(root, history, rec, do_observers=True, do_mutators=False)
+    return True
+
+
+def relative_cells(s2, ref: RefTable, col):
+    """The written column, cell by cell, with a purely relative tolerance (tiny values are values too)."""
+    if col not in s2['cols'] or 'r' not in s2['cols']:
+        return []
+    ci, ri = s2['cols'].index(col), s2['cols'].index('r')
+    for r in s2['rows']:
+        want = ref.row_of(int(r[ri]))[col]
+        got = r[ci]
+        if not ((got != got and want != want) or got == want or abs(got - want) <= 1e-10 * max(abs(got), abs(want))):
+            return [('cell-value-relative', f'row r={int(r[ri])} column {col} is {got!r}, the reference implies {want!r}')]
+    return []
+
+
+def _run_mag(task, rec):
+    root, pre = task['root'], PRE[task['pre']]
+    rec.sample(dict(part='mag', root=root, pre=pre, forms=mag_forms('2^-40')))
+    for m in (MAGS_Q if root['tier'] == 'quick' else list(MAGS)):
+        for form in mag_forms(m):
+            # observers in the state that holds the tiny values (before the removal), thorough: also after it
+            ok = _run_steps(root, pre + form[:-1], rec, 'mag', observe_last=len(form) > 1, start=len(pre))
+            if ok:
+                _run_steps(root, pre + form, rec, 'mag', observe_last=root['tier'] == 'thorough', start=len(pre) + len(form) - 1)
+
+
+def _run_nanpat(task, rec):
+    root, base = task['root'], task['base']
+    rec.sample(dict(part='nanpat', root=root, histories=nan_histories(task['masks'][0], base, root['tier'])))
+    for mask in range(*task['masks']):
+        if mask >= 32:
+            break
+        for h in nan_histories(mask, base, root['tier']):
+            _run_steps(root, h, rec, 'nanpat')
+
+
+def tool_case(layout, pattern):
+    """-> (pandas frame, reference table) of one raw frame."""
+    import pandas as pd
+
+    spec = tool_layouts()[layout]
+    ids = [float(v) for v in spec['ids']]
+    rows = [(RID[i], {'p': PVALS[pattern[i]], 'id': ids[i], 'r': float(RID[i]), 'k': ids[i] * 0.5}) for i in range(5)]
+    df = pd.DataFrame({c: [row[c] for _, row in rows] for c in TOOL_COLS}, columns=TOOL_COLS, index=spec['index'])
+    return df, RefTable.raw(TOOL_COLS, rows)
+
+
+class _Frame:
+    def __init__(self, data):
+        self.data = data
+
+
+def tool_variants(ref):
+    v = ['auto', 'given']
+    if truly_identical(ref, 'id', undefined_equal=True) != truly_identical(ref, 'id'):
+        v.append('given_undefined_equal')
+    return v
+
+
+def _tool_one(layout, pattern, variant, rec):
+    df, ref = tool_case(layout, pattern)
+    before = (frame_rows(df), df.index.tolist(), [str(c) for c in df.columns])
+    ctx = dict(root=f'tool/{layout}', hist=json.dumps(pattern), depth=1)
+    problems = run_observer(Replayed(_Frame(df), ref, None), ['flat_tool', variant], 'quick', rec, ctx)
+    after = (frame_rows(df), df.index.tolist(), [str(c) for c in df.columns])
+    if repr(before) != repr(after):
+        problems.append(('flatten-changed-its-argument', f'frame before {before} / after {after}', None))
+    undefined = 'yes' if 2 in pattern else 'no'
+    for p in problems:
+        rec.violation(f'C13|{p[0]}|op=flatten_database;identical_columns={variant};undefined-values={undefined}',
+                      f'{p[0]}: flatten_database(frame, "id", identical_columns: {variant}) on the frame with ids '
+                      f'{tool_layouts()[layout]["ids"]}, index {tool_layouts()[layout]["index"]}, column p = '
+                      f'{[PVALS[i] for i in pattern]}: {p[1]}',
+                      dict(part='tool', layout=layout, pattern=pattern, variant=variant), observed=p[1])
+
+
+def _run_tool(task, rec):
+    layout = task['layout']
+    rec.sample(dict(part='tool', layout=tool_layouts()[layout], values=repr(PVALS)))
+    for rest in itertools.product(range(3), repeat=4):
+        pattern = [task['lead']] + list(rest)
+        _, ref = tool_case(layout, pattern)
+        for variant in tool_variants(ref):
+            _tool_one(layout, pattern, variant, rec)
 
 
 def _run_chain(task, rec):
@@ -1141,6 +1471,9 @@ def _run_chain(task, rec):
 # --------------------------------------------------------------------------- replay of one case
 def replay(case):
     rec = Rec()
+    if case.get('part') == 'tool':
+        _tool_one(case['layout'], list(case['pattern']), case['variant'], rec)
+        return rec.violations
     install_seams()
     try:
         root, history, op = case['root'], [list(e) for e in case['history']], list(case['op'])
